@@ -17,6 +17,7 @@ def run_c16(chk: Check) -> int:
     quick = chk.tier == "quick"
     H.run_models(chk, ["Resync"])
     P.run_models(chk, ["Resync"])
+    chk.sensitivity("p1", "MC_ModeDReader", "CONSTANTS\n MaxSegs = 3\n GuardMax = 14\n Pinned = TRUE\n", "Resync", what="F5: pinned P1 buffer handling")
     s = chk.seed * 1000 + 16
     ht = H.pmap(H._mk_resync, [(s + i, 9 if quick else 90, 3, False) for i in range(16)])
     H.judge_and_harvest(chk, ht, ("C16",), "c16-hdlc")
@@ -314,6 +315,11 @@ def run_c19(chk: Check) -> int:
     quick = chk.tier == "quick"
     H.run_models(chk, ["BufBounded"])
     P.run_models(chk, ["BufBounded"])
+    hc = lambda st, ab, trim, fg: (f"CONSTANTS\n Stuffing = {st}\n Abort = {ab}\n MaxSegs = 3\n TrimAtEnd = {trim}\n FlagGuard = {fg}\n MaxLen = 12\n"
+                                   " BufBound = 27\n Lib = \"max\"\n")
+    chk.sensitivity("hdlc", "MC_HdlcReader", hc("TRUE", "TRUE", "FALSE", "TRUE"), "BufBounded", what="F6: buffer trimmed only at a flag (pinned tree)")
+    chk.sensitivity("hdlc", "MC_HdlcReader", hc("FALSE", "FALSE", "TRUE", "FALSE"), "BufBounded", what="F10: no length check when a flag is taken as data (pinned tree)")
+    chk.sensitivity("p1", "MC_ModeDReader", "CONSTANTS\n MaxSegs = 3\n GuardMax = 14\n Pinned = TRUE\n", "BufBounded", what="F5: pinned P1 buffer handling")
     total = 256 * 1024 if quick else 4 * 1024 * 1024
     jobs = []
     seed = chk.seed * 1000 + 19
